@@ -176,7 +176,7 @@ def _streams_other_process(rnd):
             return {"what": "streams", "raised": str(r)}
         here.append(hashlib.sha1(json.dumps(m.rng.bit_generator.state, sort_keys=True, default=str).encode()).hexdigest())
     env = dict(os.environ, PYTHONHASHSEED=str(rnd.randint(1, 10 ** 6)))
-    p = subprocess.run([sys.executable, "-c", CHILD % "/verif", json.dumps(triples)], env=env, stdout=subprocess.PIPE, stderr=subprocess.PIPE, text=True, timeout=300)
+    p = subprocess.run([sys.executable, "-c", CHILD % os.path.dirname(os.path.dirname(os.path.dirname(os.path.abspath(__file__)))), json.dumps(triples)], env=env, stdout=subprocess.PIPE, stderr=subprocess.PIPE, text=True, timeout=300)
     if p.returncode != 0:
         return {"what": "streams", "raised": "child interpreter failed: " + p.stderr[-300:]}
     there = json.loads(p.stdout.strip().splitlines()[-1])
